@@ -10,11 +10,11 @@
   each running an arbitrary finite list of `Do k` / `Get k` calls.
 
   The driver's f for key k returns the value `k#i` on its i-th invocation (so a second invocation would
-  be visible in every value).  Deciding expressions / operation order come from GIV.Gen.Par.  Core Lean only.
+  be visible in every value).  Deciding expressions / operation order come from GIV.Gen.ParCache.  Core Lean only.
 -/
-import GIV.Gen.Par
+import GIV.Gen.ParCache
 namespace GIV.ParCache
-open GIV.Gen.Par
+open GIV.Gen.ParCache
 
 abbrev Key := Nat
 abbrev TaskId := Nat
